@@ -113,6 +113,8 @@ EncFinishCheck(s, e) ==
      \cup When(e.fed # Len(s.input), V("C01", "harness did not feed the whole input"))
      \cup When(~IsPrefixOf(s.vis, out), V("C09", "bytes visible before finish are not a prefix of the final output"))
      \cup When(out # ref, V("C07", "encoder output is not the canonical HCOBS encoding of the input"))
+     \cup When(out # ref /\ s.D > 0,
+               V("C09", "what was drained plus what finish returned is not the complete output (bytes lost, duplicated or reordered)"))
      \cup When(HasStuff(out), V("C02", "encoder output contains the stuff sequence FE FD"))
      \cup When(Len(out) > EncBound(Len(s.input), s.L2), V("C02", "encoder output longer than len + 1 + 2*ceil(len/L2)"))
      \cup When(prev.input = s.input /\ prev.out # out,
@@ -128,6 +130,8 @@ DecFinishCheck(s, e) ==
           When((e.ok = 1) # d.ok, V("C07", IF d.ok THEN "decoder rejects a well-formed encoding"
                                                      ELSE "decoder accepts a string outside the format"))
      \cup When(e.ok = 1 /\ d.ok /\ out # d.out, V("C07", "decoder output differs from the format's decoding"))
+     \cup When(e.ok = 1 /\ d.ok /\ out # d.out /\ s.D > 0,
+               V("C09", "what was drained plus what finish returned is not the complete output (bytes lost, duplicated or reordered)"))
      \cup When(e.ok = 1 /\ ~IsPrefixOf(s.vis, out), V("C09", "bytes visible before finish are not a prefix of the decoder's result"))
      \cup When(e.ok = 1 /\ e.fed # Len(s.input), V("C07", "harness did not feed the whole input"))
      \cup When(s.kind = "rt" /\ ~(e.ok = 1 /\ out = s.plain),
